@@ -106,6 +106,39 @@ Theorem C10_fast_read_ignores_unknown : forall e s init wfs rest v,
 Proof. exact fast_read_ignores_unknown. Qed.
 Print Assumptions C10_fast_read_ignores_unknown.
 
+(* ---- truncated input. Every proper prefix of an encoding of a value of the struct itself — every field known
+        to the reader and typed as its schema says (conforms: what to_wire produces, StdFacts.to_w_conforms),
+        readable — is refused as too short: error class INVALID_DATA, in particular none of the panic
+        classes. (For encodings that carry fields the reader must skip this is false: see the refutations
+        below.) ---- *)
+
+Theorem C10_fast_read_prefix_error : forall e s fs0 wfs v m,
+  wf_env e = true -> find_struct e (s_name s) = Some s -> wf (WStruct wfs) ->
+  (depth (WStruct wfs) <= default_recursion_depth)%nat ->
+  conforms e (TRef (s_name s)) (WStruct wfs) = true ->
+  from_wire e s (VStruct fs0) (WStruct wfs) = Ok v ->
+  (m < length (enc (WStruct wfs)))%nat ->
+  fast_read e s (VStruct fs0) (firstn m (enc (WStruct wfs))) = FErr FShort.
+Proof. exact fast_read_prefix_error. Qed.
+Print Assumptions C10_fast_read_prefix_error.
+
+(* the same at every type *)
+Theorem C10_fast_read_prefix_error_any_type : forall e, wf_env e = true -> forall w fuel t v,
+  wf w -> (depth w <= default_recursion_depth)%nat -> conforms e t w = true -> from_w e t w = Ok v ->
+  forall m, (m < length (enc w))%nat -> (m < fuel)%nat -> fr_val fuel e t (firstn m (enc w)) = FErr FShort.
+Proof. exact (fun e H w => fr_val_prefix e H w). Qed.
+Print Assumptions C10_fast_read_prefix_error_any_type.
+
+(* ---- totality of the model: on EVERY byte string (any truncation, any corruption) and every start
+        object fast_read answers with an object or with one of the error classes of the generated code;
+        its own out-of-fuel answer is never given. Which of the classes are Go panics (FOverrun, FIndex)
+        is stated by the refutations below; that the compiled code does what the model says is the
+        correspondence of Corr/C10.v. ---- *)
+
+Theorem C10_fast_read_total : forall e s init bs, fast_read e s init bs <> FErr FFuel.
+Proof. exact fast_read_total. Qed.
+Print Assumptions C10_fast_read_total.
+
 (* ---- "returns an error instead of panicking" does NOT hold for the unchanged code: two recorded
         findings, both inside gopkg's Skip, exhibited on the model (and on the compiled code by the
         correspondence corpus) ---- *)
